@@ -1034,6 +1034,12 @@ func (x *ctx) callbackCall(st *state, fr *frame, cb *cbRef, args []val, rt types
 		x.oblige(st, "callback-requires", cl.Tag(), site, g.t.s, "")
 		st.assume(g.t.s)
 	}
+	if x.spec == 0 {
+		// ghost log: number of invocations of this callback
+		short := strings.TrimPrefix(spec.Name, "result:")
+		cnt := x.ghostGet(st, "ghost_calls_"+short, nil, bvSort(64), nil)
+		x.ghostWrite(st, "ghost_calls_"+short, nil, x.binop(token.ADD, cnt, mkbv(1, 64), types.Typ[types.Int]))
+	}
 	pre := st.clone()
 	type pend struct {
 		cl *Clause
